@@ -67,14 +67,40 @@ Proof.
   exists w'. split; [|exact Ef]. now rewrite skipn_all.
 Qed.
 
+(** io.Copy when the stream ends inside the payload, with ANY writer: what was accepted is a prefix of what
+    was available, and what was available but not accepted is still on the stream *)
+Lemma runw_copy_out_short_any n (s1 : bytes) w : blen s1 < n ->
+  exists d s2 w', runw B (do_op (OCopyOut n)) s1 w = (Ok d, s2, w') /\ (length d + length s2 = length s1)%nat.
+Proof.
+  intros Hn. rewrite runw_do_op. cbn [flatw_step].
+  destruct (N.leb_spec n (blen s1)); [lia|].
+  destruct s1 as [|b l]; [eexists _, _, _; split; reflexivity|].
+  pose proof (accepted_len w (b :: l)) as Hd. unfold accepted in Hd.
+  destruct (w_write w (b :: l)) as [d w'] eqn:Ew. cbn [fst] in Hd.
+  eexists _, _, _. split; [reflexivity|]. rewrite skipn_length. lia.
+Qed.
+
 Definition err_unclean (n : Z) (e : N) : sout := (n, SErr e, false).
 
+(** the end of streamTo's string branch when fewer bytes are left than it wants to discard *)
+Lemma runw_finish_short written e left (s1 : bytes) w1 : (0 <= left)%Z -> blen s1 < Z.to_N left -> e <> SPanic ->
+  unclean (fst (fst (runw B (bind (do_op (ODiscard left)) (fun r : result bytes =>
+        match r return prog sout with
+        | Ok _ => Ret (written, e, true)
+        | Err e2 => Ret (written, match e with SNone => SErr e2 | _ => e end, false)
+        | Panic => Ret (written, SPanic, false)
+        end)) s1 w1))).
+Proof.
+  intros Hl Hs He. rewrite (runw_bind_eq B _ _ _ _ _ _ _ (runw_discard_short left s1 w1 Hl Hs)).
+  cbn. unfold unclean. cbn. split; [reflexivity|]. destruct e; try discriminate; congruence.
+Qed.
+
 Theorem stream_counted_trunc f t s k w :
-  (t = tBlobString \/ t = tVerbatim) -> (zlen s + 2 < two63)%Z -> unlimited w ->
+  (t = tBlobString \/ t = tVerbatim) -> (zlen s + 2 < two63)%Z ->
   (k < length (enc (VBlob t s)))%nat ->
   unclean (fst (fst (runw B (stream_to (S f)) (firstn k (enc (VBlob t s))) w))).
 Proof.
-  intros Ht Hlen Hw Hk.
+  intros Ht Hlen Hk.
   assert (Hkb : k_stream_blob t = true) by (destruct Ht; subst; reflexivity).
   assert (Hnc : (t =? tChunk) = false) by (destruct Ht; subst; reflexivity).
   assert (Es : enc (VBlob t s) = t :: (dec (blen s) ++ crlf) ++ s ++ crlf).
@@ -110,27 +136,23 @@ Proof.
         cbn [negb].
         replace (Z.to_N (zlen s)) with (blen s) by (unfold blen, zlen; lia).
         destruct (Nat.lt_ge_cases j (length s)) as [Hjs|Hjs].
-        -- (* cut inside the payload *)
+        -- (* cut inside the payload: whatever the writer does, more is to be discarded than is left *)
            rewrite firstn_app_short by lia.
-           destruct (runw_copy_out_short (blen s) (firstn j s) w Hw) as (w' & E & Ef).
+           destruct (runw_copy_out_short_any (blen s) (firstn j s) w) as (d & s2 & w' & E & Hds).
            { unfold blen. rewrite firstn_length. lia. }
+           rewrite firstn_length in Hds.
            rewrite (runw_bind_eq B _ _ _ _ _ _ _ E).
-           rewrite (runw_bind_eq B _ _ _ _ _ _ _ (runw_writer_err B _ w')). rewrite Ef. cbn [werr].
-           rewrite (wrap64_small_z (zlen s - zlen (firstn j s) + 2)) by (unfold zlen, two63 in *; rewrite firstn_length; lia).
-           rewrite (runw_bind_eq B _ _ _ _ _ _ _ (runw_discard_short (zlen s - zlen (firstn j s) + 2) [] w'
-                      ltac:(unfold zlen; rewrite firstn_length; lia)
-                      ltac:(unfold blen, zlen; rewrite firstn_length; cbn [length]; lia))).
-           cbn. unfold unclean. cbn. split; [reflexivity|discriminate].
+           rewrite (runw_bind_eq B _ _ _ _ _ _ _ (runw_writer_err B _ w')).
+           rewrite (wrap64_small_z (zlen s - zlen d + 2)) by (unfold zlen, two63 in *; lia).
+           apply runw_finish_short; [unfold zlen; lia|unfold blen, zlen; lia|destruct (w_failed w'); discriminate].
         -- (* payload complete, cut inside the final CRLF *)
            rewrite firstn_app, firstn_all2 by lia.
            rewrite (runw_bind_eq B _ _ _ _ _ _ _ (runw_copy_out B s _ w Hne)).
-           destruct (unlimited_write w s Hw) as (Ea & Ef & _ & _). rewrite Ea.
-           rewrite (runw_bind_eq B _ _ _ _ _ _ _ (runw_writer_err B _ (snd (w_write w s)))). rewrite Ef. cbn [werr].
-           rewrite skipn_all, app_nil_l.
-           rewrite (wrap64_small_z (zlen s - zlen s + 2)) by (unfold two63; lia).
-           rewrite (runw_bind_eq B _ _ _ _ _ _ _ (runw_discard_short (zlen s - zlen s + 2) (firstn (j - length s) crlf) _
-                      ltac:(lia) ltac:(unfold blen; rewrite firstn_length; cbn [crlf length]; lia))).
-           cbn. unfold unclean. cbn. split; [reflexivity|discriminate].
+           pose proof (accepted_len w s) as Hd. set (d := accepted w s) in *.
+           rewrite (runw_bind_eq B _ _ _ _ _ _ _ (runw_writer_err B _ (snd (w_write w s)))).
+           rewrite (wrap64_small_z (zlen s - zlen d + 2)) by (unfold zlen, two63 in *; lia).
+           apply runw_finish_short; [unfold zlen; lia| |destruct (w_failed (snd (w_write w s))); discriminate].
+           unfold blen, zlen. rewrite app_length, skipn_length, firstn_length. cbn [crlf length]. lia.
 Qed.
 
 End Trunc.
